@@ -129,6 +129,24 @@ func runC08(r *mc.Run) {
 			add(fmt.Sprintf("quote/%s^bit%d", f.name, bit), m, o)
 		}
 	}
+	// 1a. every PAIR of single-bit differences of each exact-match option (a comparison that accumulates the
+	// differences instead of looking at each byte can cancel two of them)
+	for _, f := range optFields {
+		nb := f.len * 8
+		for b1 := 0; b1 < nb; b1++ {
+			for b2 := b1 + 1; b2 < nb; b2++ {
+				if !r.Thorough() && f.len > 16 && (b1%8 != b2%8) && (b1/8+b2/8)%5 != 0 {
+					continue // quick: same bit position in two bytes always, other combinations for a fifth of the byte pairs
+				}
+				o := &validate.Options{}
+				v := val(f)
+				v[b1/8] ^= 1 << uint(b1%8)
+				v[b2/8] ^= 1 << uint(b2%8)
+				f.set(o, v)
+				add(fmt.Sprintf("opt2/%s^bit%d^bit%d", f.name, b1, b2), raw0, o)
+			}
+		}
+	}
 	// 1b. every length from 0 to four times the field size (+1), contents = the quote's value repeated
 	for _, f := range optFields {
 		for n := 0; n <= 4*f.len+1; n++ {
